@@ -994,6 +994,18 @@ impl TypedExpr {
                             continue;
                         }
                         if n < bits {
+                            // the other operand is evaluated exactly once: the sum refers to its
+                            // wires through a reserved name (not a valid identifier, so it cannot
+                            // clash with a variable of the program)
+                            let operand = y.compile(prg, env, circuit);
+                            let tmp = "\u{0}mul_operand".to_string();
+                            env.push();
+                            env.let_in_current_scope(tmp.clone(), operand);
+                            let y = Box::new(Expr {
+                                inner: ExprEnum::Identifier(tmp),
+                                meta: y.meta,
+                                ty: y.ty.clone(),
+                            });
                             let mut expr = y.clone();
                             for _ in 0..n - 1 {
                                 expr = Box::new(Expr {
@@ -1002,16 +1014,18 @@ impl TypedExpr {
                                     ty: ty.clone(),
                                 });
                             }
-                            if is_neg {
-                                return Expr {
+                            let result = if is_neg {
+                                Expr {
                                     inner: ExprEnum::UnaryOp(UnaryOp::Neg, expr),
                                     meta,
                                     ty: ty.clone(),
                                 }
-                                .compile(prg, env, circuit);
+                                .compile(prg, env, circuit)
                             } else {
-                                return expr.compile(prg, env, circuit);
-                            }
+                                expr.compile(prg, env, circuit)
+                            };
+                            env.pop();
+                            return result;
                         }
                     }
                 }
